@@ -139,6 +139,7 @@ OTHERS = [
 # a merge with a conflicting foreign database is outside the property: validation of a
 # recorded history stops (accepting) at such an event
 ENDS = '(e.o.op = "Merge" /\\ ~MergeableAll(St, Others[e.o.k]))'
+OTHERS0 = [[dict(f, off=f["off"] - 1 if f["off"] > 0 else f["off"]) for f in o] for o in OTHERS]
 INV = ("TypeOK", "OffsetInjective", "NameInjective")
 PROPS = ("RejectedUnchanged", "CreationCarries", "MergeImports")
 
@@ -199,16 +200,16 @@ def run(ctx):
     ad = Adapter()
     names = ["a", "b", "c"]
     if ctx.quick:
-        c = consts(names, [1, 2], 3, OTHERS[:3])
-        sm.gen_replay(ctx, "LocationDB", c, 4, ad, acfg={"others": OTHERS[:3]}, invariants=INV,
+        c = consts(names, [0, 1], 3, OTHERS0[:3])
+        sm.gen_replay(ctx, "LocationDB", c, 4, ad, acfg={"others": OTHERS0[:3]}, invariants=INV,
                       properties=PROPS, constraints=("LocBound",))
     else:
-        c = consts(names, [1, 2, 3], 3, OTHERS)
-        sm.gen_replay(ctx, "LocationDB", c, 5, ad, acfg={"others": OTHERS}, invariants=INV,
+        c = consts(names, [0, 1, 2], 3, OTHERS0)
+        sm.gen_replay(ctx, "LocationDB", c, 5, ad, acfg={"others": OTHERS0}, invariants=INV,
                       properties=PROPS, constraints=("LocBound",), timeout=3000)
     # code -> spec
     bn = ["n%d" % i for i in range(6)]
-    bo = list(range(1, 7))
+    bo = list(range(0, 6))
     rng = ctx.rng
     others = []
     for _ in range(6):
